@@ -230,6 +230,10 @@ func TemplateText(parts []TmplPart) string {
 			sb.WriteString("{{ if contains " + Quote(t.Text) + " ." + t.A + " }}Y{{ else }}N{{ end }}")
 		case "regex_wrap":
 			sb.WriteString("{{ regexReplaceAll \"([a-z0-9])\" ." + t.A + " \"<$1>\" }}")
+		case "regex_wrap_literal":
+			sb.WriteString("{{ regexReplaceAllLiteral \"([a-z0-9])\" ." + t.A + " \"<$1>\" }}")
+		case "regex_count":
+			sb.WriteString("{{ count \"[a-z0-9]+\" ." + t.A + " }}")
 		case "fail_unixToTime":
 			sb.WriteString("{{ unixToTime ." + t.A + " }}")
 		case "fail_regex":
